@@ -159,9 +159,14 @@ func (c *mtastsPolicy) Close() error {
 }
 
 func (c *mtastsDelivery) PrepareDomain(ctx context.Context, domain string) {
-	c.policyFut = future.New()
+	// The goroutine must complete the future created for this domain, not
+	// whatever c.policyFut points to (or nil after Reset) once the lookup is
+	// done: PrepareDomain is called again for the next domain of the message
+	// when the MX lookup for this one fails.
+	fut := future.New()
+	c.policyFut = fut
 	go func() {
-		c.policyFut.Set(c.c.mtastsGet(ctx, domain))
+		fut.Set(c.c.mtastsGet(ctx, domain))
 	}()
 }
 
